@@ -47,6 +47,75 @@ func provDeepN(w *load.World, v ssa.Value, depth int) ssax.Origins {
 	if f == nil || depth == 0 {
 		return o
 	}
+	// captured variables: what is ever stored into the captured cell, by the enclosing function or by
+	// any literal that shares it
+	for k := range o {
+		if !strings.HasPrefix(k, "freevar:") || f.Parent() == nil {
+			continue
+		}
+		name := strings.TrimPrefix(k, "freevar:")
+		for i, fv := range f.FreeVars {
+			if fv.Name() != name {
+				continue
+			}
+			for _, pb := range f.Parent().Blocks {
+				for _, pi := range pb.Instrs {
+					mc, ok := pi.(*ssa.MakeClosure)
+					if !ok || mc.Fn != f || i >= len(mc.Bindings) {
+						continue
+					}
+					cell, isCell := mc.Bindings[i].(*ssa.Alloc)
+					if !isCell {
+						for kk := range provDeepN(w, mc.Bindings[i], depth-1) {
+							o["via-"+name+":"+kk] = true
+						}
+						continue
+					}
+					// stores into the cell in the parent ...
+					for _, r := range *cell.Referrers() {
+						if st, ok := r.(*ssa.Store); ok && st.Addr == ssa.Value(cell) {
+							for kk := range provDeepN(w, st.Val, depth-1) {
+								o["via-"+name+":"+kk] = true
+							}
+						}
+					}
+					// ... and in literals that capture the same cell
+					for _, g := range w.Fns {
+						if g.Parent() != f.Parent() && g != f {
+							continue
+						}
+						for _, gb := range g.Blocks {
+							for _, gi := range gb.Instrs {
+								st, ok := gi.(*ssa.Store)
+								if !ok {
+									continue
+								}
+								gfv, ok := st.Addr.(*ssa.FreeVar)
+								if !ok {
+									continue
+								}
+								// same cell?
+								for j, q := range g.FreeVars {
+									if q != gfv {
+										continue
+									}
+									for _, pb2 := range f.Parent().Blocks {
+										for _, pi2 := range pb2.Instrs {
+											if mc2, ok := pi2.(*ssa.MakeClosure); ok && mc2.Fn == g && j < len(mc2.Bindings) && mc2.Bindings[j] == ssa.Value(cell) {
+												for kk := range provDeepN(w, st.Val, depth-1) {
+													o["via-"+name+":"+kk] = true
+												}
+											}
+										}
+									}
+								}
+							}
+						}
+					}
+				}
+			}
+		}
+	}
 	for k := range o {
 		if !strings.HasPrefix(k, "param:") {
 			continue
@@ -233,6 +302,87 @@ func Purity(w *load.World, c *core.Collector) {
 				} else {
 					c.Add("PURITY", "comparator", core.OK, w.At(in), "", props...)
 				}
+			}
+		}
+	}
+	// streaming form: a digest object that is written to and then summed
+	for _, b := range rh.Blocks {
+		for _, in := range b.Instrs {
+			call, ok := in.(*ssa.Call)
+			if !ok {
+				continue
+			}
+			name := ""
+			var recv ssa.Value
+			if call.Call.IsInvoke() {
+				name, recv = call.Call.Method.Name(), call.Call.Value
+			} else if g := call.Call.StaticCallee(); g != nil && g.Signature.Recv() != nil && len(call.Call.Args) > 0 {
+				name, recv = g.Name(), call.Call.Args[0]
+			}
+			if name != "Sum64" && name != "Sum32" && name != "Sum" {
+				continue
+			}
+			isDigest := strings.Contains(recv.Type().String(), "xxhash") || strings.Contains(recv.Type().String(), "hash.Hash") || strings.Contains(recv.Type().String(), "hash/")
+			if !isDigest {
+				continue
+			}
+			nHash++
+			// everything written into this digest
+			var inputs []ssa.Value
+			fresh, reset := false, false
+			if nc, ok := recv.(*ssa.Call); ok && inLoop(nc.Block()) {
+				fresh = true // created anew for every server
+			}
+			for _, bb := range rh.Blocks {
+				for _, ii := range bb.Instrs {
+					wc, ok := ii.(*ssa.Call)
+					if !ok {
+						continue
+					}
+					wn := ""
+					var wr ssa.Value
+					if wc.Call.IsInvoke() {
+						wn, wr = wc.Call.Method.Name(), wc.Call.Value
+						if wr == recv {
+							inputs = append(inputs, wc.Call.Args...)
+						}
+					} else if g := wc.Call.StaticCallee(); g != nil && g.Signature.Recv() != nil && len(wc.Call.Args) > 0 {
+						wn, wr = g.Name(), wc.Call.Args[0]
+						if wr == recv && strings.HasPrefix(wn, "Write") {
+							inputs = append(inputs, wc.Call.Args[1:]...)
+						}
+					}
+					if wr == recv && wn == "Reset" && inLoop(bb) {
+						reset = true
+					}
+				}
+			}
+			o := ssax.Origins{}
+			for _, iv := range inputs {
+				for k := range ssax.Prov(iv) {
+					o[k] = true
+				}
+			}
+			pKey, pServers := "param:"+rh.Params[0].Name(), "elem(param:"+rh.Params[1].Name()+")"
+			var bad []string
+			for k := range o {
+				switch {
+				case k == "const", k == pKey, k == pServers, strings.HasPrefix(k, "call:strings."), strings.HasPrefix(k, "call:strconv."), strings.HasPrefix(k, "inlined:"):
+				default:
+					bad = append(bad, k)
+				}
+			}
+			if !o[pKey] || !o[pServers] {
+				bad = append(bad, "missing key or server")
+			}
+			if inLoop(b) && !fresh && !reset {
+				bad = append(bad, "the digest is created once and never reset inside the loop: the score of a server includes every server written before it")
+			}
+			sort.Strings(bad)
+			if len(bad) > 0 {
+				c.Add("PURITY", "hash-input", core.Violation, w.At(in), fmt.Sprintf("the score of a server depends on more than (key, that server): %v — owners would change with list order or size", bad), props...)
+			} else {
+				c.Add("PURITY", "hash-input", core.OK, w.At(in), "", props...)
 			}
 		}
 	}
@@ -832,6 +982,43 @@ func Transfer(w *load.World, c *core.Collector) {
 	} else {
 		c.Add("TRANSFER", "receiver:reset-on-first-chunk", core.Violation, w.At(open), "the destination file is opened for append and never reset: bytes left by an interrupted transfer stay in front of the retried one and its checksum can never match", props...)
 	}
+	// Sync runs both phases: records route by user id and shards by shard id, so neither phase's
+	// outcome says anything about whether the other has work to do
+	if sy := findFn(w, "(*cluster.ClusterNode).Sync"); sy == nil {
+		c.Add("TRANSFER", "anchor:Sync", core.Undecided, "", "ClusterNode.Sync not found", props...)
+	} else {
+		var rec, shards *ssa.Call
+		for _, b := range sy.Blocks {
+			for _, in := range b.Instrs {
+				if call, ok := in.(*ssa.Call); ok && call.Call.StaticCallee() != nil {
+					switch load.FnKey(call.Call.StaticCallee()) {
+					case "(*cluster.ClusterNode).syncUserCollections":
+						rec = call
+					case "(*cluster.ClusterNode).syncShards":
+						shards = call
+					}
+				}
+			}
+		}
+		if rec == nil || shards == nil {
+			c.Add("TRANSFER", "sync:both-phases", core.Violation, w.Position(sy.Pos()), "Sync does not run both the record phase and the shard phase", props...)
+		} else {
+			// once the record phase has run, every success exit has also run the shard phase
+			bad := ""
+			for _, ex := range successExits(sy) {
+				if ssax.Precedes(rec, ex.In) && !ssax.Precedes(shards, ex.In) {
+					if v, ok := ex.Val.(ssa.Value); !ok || v != ssa.Value(shards) {
+						bad = w.At(ex.In)
+					}
+				}
+			}
+			if bad != "" {
+				c.Add("TRANSFER", "sync:both-phases", core.Violation, bad, "Sync can report success after the record phase without having run the shard phase: shards that belong elsewhere are never moved", props...)
+			} else {
+				c.Add("TRANSFER", "sync:both-phases", core.OK, w.At(shards), "", props...)
+			}
+		}
+	}
 	// ORDER in main
 	mainFn := w.Func("", "main")
 	if mainFn == nil {
@@ -1049,6 +1236,74 @@ func Quota(w *load.World, c *core.Collector) {
 			}
 		}
 	}
+	// the quota sums the point counts of every shard: the gathering of shard infos must fail as a whole
+	// when one shard does not answer (a partial list under-counts and lets the request through)
+	if g := findFn(w, "(*cluster.ClusterNode).GetShardsInfo"); g == nil {
+		c.Add("QUOTA", "anchor:GetShardsInfo", core.Undecided, "", "ClusterNode.GetShardsInfo not found", props...)
+	} else {
+		var rpc *ssa.Call
+		for _, b := range g.Blocks {
+			for _, in := range b.Instrs {
+				if call, ok := in.(*ssa.Call); ok && call.Call.StaticCallee() != nil && load.FnKey(call.Call.StaticCallee()) == "(*cluster.ClusterNode).RPCGetShardInfo" {
+					rpc = call
+				}
+			}
+		}
+		if rpc == nil {
+			c.Add("QUOTA", "shard-infos-all-or-error", core.Undecided, w.Position(g.Pos()), "the per-shard info call was not found", props...)
+		} else {
+			failed, _ := ssax.NilTests(g, rpc)
+			// through a variable: the test may be on a phi / load fed by the call
+			if len(failed) == 0 {
+				for _, r := range *rpc.Referrers() {
+					if phi, ok := r.(*ssa.Phi); ok {
+						f2, _ := ssax.NilTests(g, phi)
+						failed = append(failed, f2...)
+					}
+				}
+			}
+			isErrReturn := func(in ssa.Instruction) bool {
+				ret, ok := in.(*ssa.Return)
+				if !ok {
+					return false
+				}
+				for i := range ret.Results {
+					if isErrorType(ret.Results[i].Type()) && nonNilError(ssax.ReturnOperand(ret, i), ret.Block()) {
+						return true
+					}
+				}
+				return false
+			}
+			again := func(in ssa.Instruction) bool {
+				// the call is reached again (next shard), or the function returns successfully
+				if in == ssa.Instruction(rpc) {
+					return true
+				}
+				if ret, ok := in.(*ssa.Return); ok {
+					return !isErrReturn(ret)
+				}
+				return false
+			}
+			switch {
+			case len(failed) == 0:
+				c.Add("QUOTA", "shard-infos-all-or-error", core.Violation, w.At(rpc), "the error of the per-shard info call is never tested", props...)
+			default:
+				okAll := true
+				at := w.At(rpc)
+				for _, e := range failed {
+					if ok, bad := mustPassFromEdge(e, isErrReturn, again); !ok {
+						okAll = false
+						at = w.At(bad)
+					}
+				}
+				if okAll {
+					c.Add("QUOTA", "shard-infos-all-or-error", core.OK, w.At(rpc), "", props...)
+				} else {
+					c.Add("QUOTA", "shard-infos-all-or-error", core.Violation, at, "after a shard failed to report its size the gathering goes on (or succeeds) instead of returning an error: the quota is then checked against a total that leaves that shard out", props...)
+				}
+			}
+		}
+	}
 	// collection quota in RPCCreateCollection$1
 	var lit *ssa.Function
 	for _, g := range clusterFns(w) {
@@ -1257,6 +1512,77 @@ func Lifecycle(w *load.World, c *core.Collector) {
 	} else {
 		c.Add("LIFECYCLE", "anchor:DeleteCollectionShards", core.Undecided, "", "not found", props...)
 	}
+	// the idle-unload routine belongs to one loadedShard; by the time it gets the store lock the entry
+	// under its directory may already be a newer incarnation (deleted and reloaded meanwhile): it may
+	// only remove the entry behind a test that the entry is still its own
+	if f := findFn(w, "(*cluster.ShardManager).cleanupRoutine"); f != nil {
+		var own ssa.Value
+		for _, p := range f.Params {
+			if ssax.TypeName(p.Type()) == "cluster.loadedShard" {
+				own = p
+			}
+		}
+		for _, b := range f.Blocks {
+			for _, in := range b.Instrs {
+				call, ok := in.(*ssa.Call)
+				if !ok {
+					continue
+				}
+				bi, ok := call.Call.Value.(*ssa.Builtin)
+				if !ok || bi.Name() != "delete" {
+					continue
+				}
+				if p, _ := ssax.Path(call.Call.Args[0]); !strings.Contains(p, "shardStore") {
+					continue
+				}
+				guarded := false
+				for _, bb := range f.Blocks {
+					ifi, ok := bb.Instrs[len(bb.Instrs)-1].(*ssa.If)
+					if !ok {
+						continue
+					}
+					bo, ok := ifi.Cond.(*ssa.BinOp)
+					if !ok || (bo.Op != token.EQL && bo.Op != token.NEQ) {
+						continue
+					}
+					isEntry := func(v ssa.Value) bool {
+						if lk, ok := v.(*ssa.Lookup); ok {
+							p, _ := ssax.Path(lk.X)
+							return strings.Contains(p, "shardStore")
+						}
+						if ex, ok := v.(*ssa.Extract); ok {
+							if lk, ok := ex.Tuple.(*ssa.Lookup); ok {
+								p, _ := ssax.Path(lk.X)
+								return strings.Contains(p, "shardStore")
+							}
+						}
+						return false
+					}
+					isOwn := func(v ssa.Value) bool {
+						if v == own {
+							return true
+						}
+						o := ssax.Resolve(v)
+						return len(o) == 1 && o[0].Val == own && len(o[0].Path) == 0
+					}
+					if (isEntry(bo.X) && isOwn(bo.Y)) || (isEntry(bo.Y) && isOwn(bo.X)) {
+						e := 0
+						if bo.Op == token.NEQ {
+							e = 1
+						}
+						if ssax.OnlyViaEdge(bb, e, b) {
+							guarded = true
+						}
+					}
+				}
+				if guarded {
+					c.Add("LIFECYCLE", "unregister-own-entry", core.OK, w.At(in), "", props...)
+				} else {
+					c.Add("LIFECYCLE", "unregister-own-entry", core.Violation, w.At(in), "the idle-unload routine removes the registry entry of its directory without testing that the entry is still its own shard: a shard that was deleted and reloaded meanwhile is evicted while open, and the next request opens the same file a second time", props...)
+				}
+			}
+		}
+	}
 	// every send on doneCh is non-blocking
 	for _, f := range clusterFns(w) {
 		for _, b := range f.Blocks {
@@ -1281,5 +1607,75 @@ func Lifecycle(w *load.World, c *core.Collector) {
 				}
 			}
 		}
+	}
+}
+
+// ----------------------------------------------------------- ROUTE: retries
+//
+// internalRoute retries a forwarded call; it may only report success (nil) when a
+// call succeeded. Inside the retry loop the error variable is reset at the start of
+// an attempt; an attempt that ends without recording an error and without returning
+// (the "connection was already shut down, nothing was sent" branch) must give the
+// attempt back, otherwise the loop can run out and the function returns the nil it
+// was reset to — the fan-out then counts the shard as answered (C17).
+// In SSA: wherever a loop-carried error phi receives a value that may be nil along a
+// continue/back edge, an int phi of the same block receives counter-1 on that edge.
+func RetryLoop(w *load.World, c *core.Collector) {
+	props := []string{"C17"}
+	f := findFn(w, "(*cluster.ClusterNode).internalRoute")
+	if f == nil {
+		c.Add("ROUTE", "anchor:internalRoute", core.Undecided, "", "internalRoute not found", props...)
+		return
+	}
+	// only the edge on which the nil arrives directly: a phi that merges it further down the
+	// loop (the header re-merging the post block) describes the same edge again
+	mayBeNil := func(v ssa.Value) bool { return ssax.IsNilConst(v) }
+	n := 0
+	bad := ""
+	for _, b := range f.Blocks {
+		if !inLoop(b) {
+			continue
+		}
+		var errPhis, intPhis []*ssa.Phi
+		for _, in := range b.Instrs {
+			phi, ok := in.(*ssa.Phi)
+			if !ok {
+				continue
+			}
+			if isErrorType(phi.Type()) {
+				errPhis = append(errPhis, phi)
+			} else if bt, ok := phi.Type().Underlying().(*types.Basic); ok && bt.Info()&types.IsInteger != 0 {
+				intPhis = append(intPhis, phi)
+			}
+		}
+		for _, ep := range errPhis {
+			for i, e := range ep.Edges {
+				pred := b.Preds[i]
+				if !ssax.Reaches(b, pred) || !mayBeNil(e) {
+					continue // entry edge, or an error was recorded on this edge
+				}
+				n++
+				given := false
+				for _, ip := range intPhis {
+					if bo, ok := ip.Edges[i].(*ssa.BinOp); ok && bo.Op == token.SUB {
+						if one, isC := ssax.ConstInt(bo.Y); isC && one == 1 {
+							given = true
+						}
+					}
+				}
+				if !given {
+					bad = w.At(pred.Instrs[len(pred.Instrs)-1])
+				}
+			}
+		}
+	}
+	switch {
+	case n == 0:
+		// no attempt can end silently: every continue records an error
+		c.Add("ROUTE", "retry-gives-attempt-back", core.OK, w.Position(f.Pos()), "no silent continue", props...)
+	case bad != "":
+		c.Add("ROUTE", "retry-gives-attempt-back", core.Violation, bad, "an attempt of the retry loop can end here without an error recorded and without the attempt being given back (the counter is not decremented on this edge): when it was the last allowed attempt the call returns nil although nothing was sent", props...)
+	default:
+		c.Add("ROUTE", "retry-gives-attempt-back", core.OK, w.Position(f.Pos()), "", props...)
 	}
 }
